@@ -119,6 +119,7 @@ def scramble(x):
 
 def run(ctx):
     res = common.Result("C06")
+    rc.EMPTY_REST_IS_ERROR = True   # see refcodec: an empty "all remaining bytes" value is outside the judged domain
     import pycomm3 as p
     rng = ctx.rng()
     quick = ctx.quick
